@@ -54,6 +54,8 @@ KINDS = [
     "dict", "dictx", "arrnan", "arrstr", "raggednpscalar",
     # collections whose entries differ in kind: stored under numpy's promotion (value-preserving) or refused
     "mixnum", "mixarr", "mixnumstr", "mixboolint",
+    # 2-D entries that are not C-contiguous in memory (transposed views, Fortran order)
+    "ragged2F", "arr2F",
 ]
 PATTERNS = ["none", "some", "all", "first", "last", "allbutone"]
 LEVELS = ["block", "assembly", "component", "core"]
@@ -138,6 +140,11 @@ def make_collection(kind, n, pattern, seedv):
             return g.choice(fl) if g.next() % 3 == 0 else [g.choice(fl) for _ in range(g.randint(2, 3))]
         if kind == "raggednpscalar":
             return np.int32(g.choice(ints)) if g.next() % 3 == 0 else [g.choice(ints) for _ in range(g.randint(2, 3))]
+        if kind == "ragged2F":
+            r, c_ = g.randint(2, 3), g.randint(2, 4)
+            return np.array([[g.choice(fl) for _ in range(r)] for _ in range(c_)]).T  # shape (r, c_), a transposed view
+        if kind == "arr2F":
+            return np.asfortranarray([[g.choice(fl) for _ in range(3)] for _ in range(2)])
         if kind == "mixnum":
             return g.choice(ints) if g.next() % 2 else g.choice([0.5, -2.25, 1.5, 12345.678])
         if kind == "mixarr":
@@ -274,7 +281,7 @@ def JaggedFlat(x):
         yield x
 
 
-REAL_KINDS = {"float", "floatx", "npfloat32", "arr1", "arr2", "arrnan", "nested", "tuple", "ragged", "ragged2", "raggedscalar", "raggedempty", "dict", "dictx"}
+REAL_KINDS = {"ragged2F", "arr2F", "float", "floatx", "npfloat32", "arr1", "arr2", "arrnan", "nested", "tuple", "ragged", "ragged2", "raggedscalar", "raggedempty", "dict", "dictx"}
 
 
 def is_sentinel(v):
@@ -337,6 +344,13 @@ def gen_plan(rng, index, tier):
     rflags = wflags + rng.sample(extra, rng.randint(0, len(extra)))
     rng.shuffle(rflags)
     cfg["flags"] = {"writer": wflags, "reader": rflags}
+    if len(wflags) >= 2 and rng.random() < 0.6:
+        # a second database written by a process that defined the same flags in another order: the
+        # reader goes back and forth between the two files
+        w2 = list(wflags)
+        while w2 == wflags:
+            rng.shuffle(w2)
+        cfg["flags"]["writer2"] = w2
     steps = []
     for t in range(rng.randint(6, 40)):
         if wflags and rng.random() < 0.12:
@@ -406,34 +420,37 @@ def _sorted_like_db(objs):
     return objs
 
 
-def writer(plan, scratch, log):
+def writer(plan, scratch, log, second=False):
     """Runs in its own process: extend flags, build the reactor, perform the transactions.
-    Returns {"expect": {t: (level, [(serial, value)...])}, "rejected": {...}, "violation": ...}."""
+    Returns {"expect": {t: (level, [(serial, value)...])}, "rejected": {...}, "violation": ...}.
+    second: the other writer (flag order "writer2", file kv2.h5, flag transactions only)."""
     import numpy as np
     from armi.bookkeeping.db.database import Database
     from armi.reactor.flags import Flags
 
     cfg = plan["config"]
-    if cfg["flags"]["writer"]:
-        _extend_flags(cfg["flags"]["writer"])
+    if cfg["flags"]["writer2" if second else "writer"]:
+        _extend_flags(cfg["flags"]["writer2" if second else "writer"])
     d = enginea.Director(plan, log)
     cs, o, _ = enginea.build_life(cfg, scratch, 0, d)
     r = o.r
     out = {"expect": {}, "rejected": [], "accepted": [], "violation": None, "stats": {}, "cells": [], "known": {}}
     findings = driver.load_findings()
-    db = Database(os.path.join(scratch, "kv.h5"), "w")
+    db = Database(os.path.join(scratch, "kv2.h5" if second else "kv.h5"), "w")
     db.open()
     db.writeInputsToDB(cs)
     all_params = ["vP0", "vP1", "vP2", "vP3"]
     try:
         for st in plan["steps"]:
             t = st["t"]
+            if second and st["op"] != "flags":
+                continue
             if st["op"] == "flags":
                 for lv in LEVELS:
                     for oo in _targets(r, lv):
                         for pn in all_params:
                             oo.p[pn] = None
-                g = LCG(st["seedv"])
+                g = LCG(st["seedv"] + (977 if second else 0))
                 blks = c06.objects_at_level(r, "block")
                 names = {}
                 for b in blks:
@@ -517,18 +534,16 @@ def _extend_flags(names):
     Flags.extend({nm: futil.auto() for nm in names})
 
 
-def execute(plan):
-    cfg = plan["config"]
-    log, scratch, clock, simos, d = enginea.new_run(plan)
-    try:
-        # ---- writer process
+def run_writer(plan, scratch, log, second=False):
+    """Fork a writer process; returns its result dict (raises for refusals / failures)."""
+    if True:
         rfd, wfd = os.pipe()
         pid = os.fork()
         if pid == 0:
             os.close(rfd)
             try:
                 try:
-                    out = ("ok", writer(plan, scratch, log), log.events)
+                    out = ("ok", writer(plan, scratch, kernel.EventLog() if second else log, second), [] if second else log.events)
                 except kernel.Rejected as e:
                     out = ("rejected", str(e), [])
                 except BaseException as e:  # noqa: BLE001
@@ -562,6 +577,15 @@ def execute(plan):
         if out["violation"]:
             o, m, det = out["violation"]
             raise OracleFailure(o, m, det)
+        return out
+
+
+def execute(plan):
+    cfg = plan["config"]
+    log, scratch, clock, simos, d = enginea.new_run(plan)
+    try:
+        out = run_writer(plan, scratch, log)
+        out2 = run_writer(plan, scratch, log, second=True) if cfg["flags"].get("writer2") else None
         # ---- reader process (this one): permuted superset of the writer's flags
         if cfg["flags"]["reader"]:
             _extend_flags(cfg["flags"]["reader"])
@@ -573,7 +597,7 @@ def execute(plan):
         new = dict(enginea.BASE_OVERRIDES)
         new.update(extra)
         cs = settings.Settings(fname).modified(newSettings=new)
-        nflag = 0
+        nflag = nflag2 = 0
         known = dict(out.get("known", {}))
         findings = driver.load_findings()
         with Database(os.path.join(scratch, "kv.h5"), "r") as db:
@@ -591,6 +615,22 @@ def execute(plan):
                         if got != names:
                             raise OracleFailure("C05.flags", f"transaction {t}: block serial {sn} wrote flags {names}, reader (flag order {cfg['flags']['reader']} vs writer {cfg['flags']['writer']}) read {got}", {"what": "names"})
                     nflag += 1
+                    if out2 is not None and t in out2["expect"]:
+                        # the same reader process now reads the other writer's file, then this one again
+                        with Database(os.path.join(scratch, "kv2.h5"), "r") as dbB:
+                            rB = dbB.load(0, 0, cs=cs, statePointName=f"t{t}", allowMissing=True)
+                        by_snB = {int(x.p.serialNum): x for x in [rB] + list(rB.iterChildren(deep=True))}
+                        for sn, names in out2["expect"][t][1].items():
+                            got = sorted(_flag_names(by_snB[sn].p.flags))
+                            if got != names:
+                                raise OracleFailure("C05.flags", f"transaction {t}: second file: block serial {sn} wrote flags {names} (writer order {cfg['flags']['writer2']}), the reader - which had read the first file (writer order {cfg['flags']['writer']}) before - read {got}", {"what": "names-second-file"})
+                        rA = db.load(0, 0, cs=cs, statePointName=f"t{t}", allowMissing=True)
+                        by_snA = {int(x.p.serialNum): x for x in [rA] + list(rA.iterChildren(deep=True))}
+                        for sn, names in exp.items():
+                            got = sorted(_flag_names(by_snA[sn].p.flags))
+                            if got != names:
+                                raise OracleFailure("C05.flags", f"transaction {t}: first file read again after the second: block serial {sn} wrote flags {names}, read {got}", {"what": "names-reread"})
+                        nflag2 += 1
                     continue
                 written = [v for _, v in exp]
                 got = [by_sn[sn].p[st["param"]] for sn, _ in exp]
@@ -601,6 +641,7 @@ def execute(plan):
         for c in cells:
             probes[f"kind_{c[0]}_{c[4]}"] = probes.get(f"kind_{c[0]}_{c[4]}", 0) + 1
         probes["flag_skew_snapshots"] = nflag
+        probes["flag_two_writer_orders_reads"] = nflag2
         if set(cfg["flags"]["reader"]) - set(cfg["flags"]["writer"]):
             probes["reader_superset"] = 1
         stats = {"transactions": len(plan["steps"]), "accepted": len(out["accepted"]), "rejected_at_write": len(out["rejected"])}
